@@ -129,8 +129,8 @@ META = {
     },
     "C07": {
         "text": "Coq theorems: a diagonal sweep stores only structurally legal terms (valid bond, that bond's variables in order, constant flag, arities) given a legal string; zero-weight operators are inserted with probability exactly 0 in both variants; "
-                "spin-flip-only updates keep every bond at its position. The legality of every stored operator (incl. strictly positive matrix element) is checked against the configured Hamiltonian after every public call of both samplers.",
-        "note": "Trusted: Coq kernel + vm_compute; model transcriptions. Partial: positivity after cluster/loop/RVB updates rests on the oracle and the exact model correspondence.",
+                "spin-flip-only updates keep every bond at its position; a directed-loop update leaves an operator of non-positive weight behind with probability exactly 0; a cluster flip with a validated labelling keeps every operator legal. The legality of every stored operator (incl. strictly positive matrix element) is checked against the configured Hamiltonian after every public call of both samplers.",
+        "note": "Trusted: Coq kernel + vm_compute; model transcriptions. Partial: positivity after RVB updates rests on the legality oracle only.",
         "technique": "Coq proof (support induction, exact masses) + whole-call raw-tape replay + legality oracle after every call",
         "design_ref": "DESIGN.md §3 C07",
     },
